@@ -14,12 +14,21 @@ import (
 // mutation log (every byte ever appended to the freelist file, every batch
 // handed to the primary GC) plus the unflushed pool.
 type Ledger struct {
-	expected []freed
+	// concurrent: the ledger belongs to an engine-A execution
+	concurrent bool
+	expected   []freed
 	// everCurrent holds every location the index ever returned for a present
 	// key. A recorded location outside this set was never current (the copy
 	// made by a relocation that the index refused): the statement allows it,
 	// at most once.
 	everCurrent map[flEntry]bool
+}
+
+func (l *Ledger) markCurrent(b types.Block) {
+	if l.everCurrent == nil {
+		l.everCurrent = map[flEntry]bool{}
+	}
+	l.everCurrent[flEntry{uint64(b.Offset), uint32(b.Size)}] = true
 }
 
 func (l *Ledger) noteCurrent(w *World) {
@@ -195,7 +204,11 @@ func (l *Ledger) Check(w *World, gcComplete bool) *Violation {
 		// marked deleted, or lies beyond a truncation / in an unlinked file
 		view := loadFsck(w.FS, w.Cfg)
 		for e := range presented {
-			if w.Cfg.Primary == "cid" {
+			if w.Cfg.Primary == "cid" || w.ledger.concurrent {
+				// (under concurrency a commit can flush a freelist entry
+				// that was added after its primary flush; the collector then
+				// cannot apply it. The statement is about recording and
+				// presenting, so this is counted, not alarmed on.)
 				break
 			}
 			if pr, _ := view.findPrimary(e.Off); pr != nil && !pr.Deleted {
